@@ -773,7 +773,12 @@ class VfBaseException(BaseException):
 
 def with_exc_class(spec):
     """The exception type a 'with_exc' run raises inside the with-block: a non-interrupt exception of any kind."""
-    return {'systemexit': SystemExit, 'generatorexit': GeneratorExit, 'base': VfBaseException}.get(spec.get('with_exc_type'), ValueError)
+    from s3transfer.exceptions import CancelledError as _C, FatalError as _F
+
+    # ('cancelled' / 'fatal': the library's own exception classes leaving the block - result() of a cancelled transfer re-raised by the
+    # caller, concurrent.futures.CancelledError from user code, a FatalError of another manager's future)
+    return {'systemexit': SystemExit, 'generatorexit': GeneratorExit, 'base': VfBaseException, 'cancelled': _C, 'fatal': _F}.get(
+        spec.get('with_exc_type'), ValueError)
 
 
 class _ProbeTask:
